@@ -45,6 +45,7 @@ func init() {
 		Runs: []RunDef{
 			c03("H_int_arith", nil), c03("H_int_unary", nil), c03("H_int_div", nil), c03("H_float_arith", nil), c03("H_float_rem", nil),
 			c03("H_mixed_arith", nil), c03("H_shift", nil), c03("H_cmp_int", nil), c03("H_cmp_float", nil), c03("H_cmp_mixed", nil), c03("H_cmp_bool", nil),
+			c03("H_cmp_numeric_strings", nil),
 			c03("H_cmp_string", map[string]int{"n": 0, "m": 0}), c03("H_cmp_string", map[string]int{"n": 1, "m": 0}), c03("H_cmp_string", map[string]int{"n": 0, "m": 1}),
 			c03("H_cmp_string", map[string]int{"n": 1, "m": 1}), c03("H_cmp_string", map[string]int{"n": 2, "m": 1}), c03("H_cmp_string", map[string]int{"n": 1, "m": 2}),
 			c03("H_cmp_string", map[string]int{"n": 2, "m": 2}),
@@ -288,7 +289,7 @@ func init() {
 			c17("H_reflect_int", nil), c17("H_reflect_int64", nil), c17("H_reflect_float", nil), c17("H_reflect_bool", nil),
 			c17("H_reflect_str", n(0)), c17("H_reflect_str", n(1)), c17("H_reflect_str", n(2)), c17("H_reflect_str", n(3)),
 			c17("H_reflect_arity", nil), c17("H_reflect_nocrash", nil),
-			c17("H_reflect_sized", nil), c17("H_reflect_float_to_int", nil), c17("H_reflect_unsigned_result", nil), c17("H_reflect_float_result", nil),
+			c17("H_reflect_sized", nil), c17("H_reflect_float_to_int", nil), c17("H_reflect_unsigned_result", nil), c17("H_reflect_float_result", nil), c17("H_reflect_defined", nil),
 			c17("H_reflect_method", n(0)), c17("H_reflect_method", n(1)), c17("H_reflect_method", n(2)),
 		},
 		Rule:        rule + "; script-side payloads are full-width symbolic ints/doubles/bools and fully symbolic byte strings (incl. non-UTF-8) of the stated length; the reflective path is driven through a real parsed script call; H_reflect_sized: int8/int16/int32/uint8/uint32/uint64 parameters accept exactly the representable values of a full-range symbolic int; H_reflect_float_to_int: a symbolic double passed to an int parameter; H_reflect_method: the methods of a registered struct (ReflectClass / ReflectMethod) for int64, float64, string, bool, int8 and arity 2; H_reflect_float_result: float32 (concrete pool) and float64 (symbolic) results bit for bit",
